@@ -29,7 +29,7 @@ static void mk_chain(int c) {
 	chain[n++] = (lzma_filter){ c == C_LZMA1 ? LZMA_FILTER_LZMA1 : LZMA_FILTER_LZMA2, &opt }; chain[n].id = LZMA_VLI_UNKNOWN;
 	// update variants: same chain with other lc/lp/pb; a different chain; an invalid chain
 	opt_upd = opt; opt_upd.lc = 0; opt_upd.lp = 2; opt_upd.pb = 0; memcpy(chain_upd, chain, sizeof chain); chain_upd[n - 1].options = &opt_upd;
-	opt_mf = opt; opt_mf.mf = (opt.mf == LZMA_MF_HC3 || opt.mf == LZMA_MF_HC4) ? LZMA_MF_BT4 : LZMA_MF_HC3; opt_mf.mode = (opt_mf.mf == LZMA_MF_BT4) ? LZMA_MODE_NORMAL : LZMA_MODE_FAST; memcpy(chain_mf, chain, sizeof chain); chain_mf[n - 1].options = &opt_mf;	// same chain, other match finder (hash chain <-> binary tree)
+	opt_mf = opt; opt_mf.mf = opt.mf == LZMA_MF_HC3 ? LZMA_MF_BT3 : opt.mf == LZMA_MF_HC4 ? LZMA_MF_BT4 : opt.mf == LZMA_MF_BT4 ? LZMA_MF_HC4 : LZMA_MF_HC3; opt_mf.mode = (opt_mf.mf & 0x10) ? LZMA_MODE_NORMAL : LZMA_MODE_FAST;	/* same hash width where one exists: only the tree/chain array changes size */ memcpy(chain_mf, chain, sizeof chain); chain_mf[n - 1].options = &opt_mf;	// same chain, other match finder (hash chain <-> binary tree)
 	int m = 0; if (c != C_DELTA_LZMA2) chain_other[m++] = (lzma_filter){ LZMA_FILTER_DELTA, &odelta }; chain_other[m++] = (lzma_filter){ LZMA_FILTER_LZMA2, &opt_upd }; chain_other[m].id = LZMA_VLI_UNKNOWN;
 	chain_bad[0] = (lzma_filter){ LZMA_FILTER_LZMA2, &opt }; chain_bad[1] = (lzma_filter){ LZMA_FILTER_DELTA, &odelta }; chain_bad[2].id = LZMA_VLI_UNKNOWN;
 }
